@@ -105,6 +105,79 @@ func init() {
 		return v
 	}
 
+	// ---------------- net/netip (opaque values with uninterpreted projections)
+	netipDecl := func(g *Gen) {
+		if g.ufDecl["netip-axioms"] {
+			return
+		}
+		g.ufDecl["netip-axioms"] = true
+		g.W.opaque["Opq_net_netip_Addr"] = true
+		g.W.opaque["Opq_net_netip_AddrPort"] = true
+		g.decls = append(g.decls,
+			"(declare-fun netip_ap_from (Opq_net_netip_Addr (_ BitVec 16)) Opq_net_netip_AddrPort)",
+			"(declare-fun netip_ap_addr (Opq_net_netip_AddrPort) Opq_net_netip_Addr)",
+			"(declare-fun netip_ap_port (Opq_net_netip_AddrPort) (_ BitVec 16))",
+			"(declare-fun netip_is4 (Opq_net_netip_Addr) Bool)",
+			"(declare-fun netip_is4in6 (Opq_net_netip_Addr) Bool)",
+			"(declare-fun netip_is6 (Opq_net_netip_Addr) Bool)",
+			"(declare-fun netip_valid (Opq_net_netip_Addr) Bool)",
+			"(declare-fun netip_unmap (Opq_net_netip_Addr) Opq_net_netip_Addr)",
+			"(declare-fun netip_as4 (Opq_net_netip_Addr) (Array (_ BitVec 64) (_ BitVec 8)))",
+			"(declare-fun netip_as16 (Opq_net_netip_Addr) (Array (_ BitVec 64) (_ BitVec 8)))",
+			"(declare-fun netip_from4 ((Array (_ BitVec 64) (_ BitVec 8))) Opq_net_netip_Addr)",
+			"(declare-fun netip_from16 ((Array (_ BitVec 64) (_ BitVec 8))) Opq_net_netip_Addr)",
+		)
+		for _, ax := range []string{
+			"(forall ((a Opq_net_netip_Addr) (p (_ BitVec 16))) (! (and (= (netip_ap_addr (netip_ap_from a p)) a) (= (netip_ap_port (netip_ap_from a p)) p)) :pattern ((netip_ap_from a p))))",
+			"(forall ((x Opq_net_netip_AddrPort)) (! (= (netip_ap_from (netip_ap_addr x) (netip_ap_port x)) x) :pattern ((netip_ap_addr x))))",
+			// an address is exactly one of: invalid (zero), IPv4, IPv6 (4in6 is a kind of IPv6)
+			"(forall ((a Opq_net_netip_Addr)) (! (and (= (netip_valid a) (or (netip_is4 a) (netip_is6 a))) (not (and (netip_is4 a) (netip_is6 a))) (=> (netip_is4in6 a) (netip_is6 a))) :pattern ((netip_is4 a))))",
+			"(forall ((a Opq_net_netip_Addr)) (! (and (= (netip_valid a) (or (netip_is4 a) (netip_is6 a))) (not (and (netip_is4 a) (netip_is6 a))) (=> (netip_is4in6 a) (netip_is6 a))) :pattern ((netip_is6 a))))",
+			"(forall ((a Opq_net_netip_Addr)) (! (and (=> (netip_is4in6 a) (netip_is4 (netip_unmap a))) (=> (not (netip_is4in6 a)) (= (netip_unmap a) a))) :pattern ((netip_unmap a))))",
+			"(not (netip_valid zero_Opq_net_netip_Addr))",
+			"(forall ((b (Array (_ BitVec 64) (_ BitVec 8)))) (! (and (netip_is4 (netip_from4 b)) (not (netip_is4in6 (netip_from4 b)))) :pattern ((netip_from4 b))))",
+			"(forall ((b (Array (_ BitVec 64) (_ BitVec 8)))) (! (netip_is6 (netip_from16 b)) :pattern ((netip_from16 b))))",
+		} {
+			g.addAxiom(ax)
+		}
+		g.declareUF("zero_Opq_net_netip_Addr", "() Opq_net_netip_Addr")
+		g.quantAsm = true
+	}
+	uf1 := func(name, uf string, resK Kind) {
+		models[name] = func(f *Frame, args []*SVal, rt types.Type, pos token.Pos) *SVal {
+			netipDecl(f.g)
+			f.used("net/netip values are opaque; " + name + " is an uninterpreted projection with the usual algebraic laws")
+			return scalar(rt, kindOf(rt), sApp(uf, args[0].Term))
+		}
+	}
+	uf1("(net/netip.AddrPort).Addr", "netip_ap_addr", KOpaque)
+	uf1("(net/netip.AddrPort).Port", "netip_ap_port", KInt)
+	uf1("(net/netip.Addr).Is4", "netip_is4", KBool)
+	uf1("(net/netip.Addr).Is6", "netip_is6", KBool)
+	uf1("(net/netip.Addr).Is4In6", "netip_is4in6", KBool)
+	uf1("(net/netip.Addr).IsValid", "netip_valid", KBool)
+	uf1("(net/netip.Addr).Unmap", "netip_unmap", KOpaque)
+	uf1("(net/netip.Addr).As4", "netip_as4", KArray)
+	uf1("(net/netip.Addr).As16", "netip_as16", KArray)
+	uf1("net/netip.AddrFrom4", "netip_from4", KOpaque)
+	uf1("net/netip.AddrFrom16", "netip_from16", KOpaque)
+	models["(net/netip.AddrPort).IsValid"] = func(f *Frame, args []*SVal, rt types.Type, pos token.Pos) *SVal {
+		netipDecl(f.g)
+		return scalar(rt, KBool, sApp("netip_valid", sApp("netip_ap_addr", args[0].Term)))
+	}
+	models["net/netip.AddrPortFrom"] = func(f *Frame, args []*SVal, rt types.Type, pos token.Pos) *SVal {
+		netipDecl(f.g)
+		f.used("net/netip.AddrPortFrom as an uninterpreted constructor with Addr()/Port() projections")
+		return scalar(rt, KOpaque, sApp("netip_ap_from", args[0].Term, args[1].Term))
+	}
+	// As4 panics on a non-IPv4 address (zero Addr or pure IPv6)
+	as4 := models["(net/netip.Addr).As4"]
+	models["(net/netip.Addr).As4"] = func(f *Frame, args []*SVal, rt types.Type, pos token.Pos) *SVal {
+		netipDecl(f.g)
+		f.oblige("panic", sOr(sApp("netip_is4", args[0].Term), sApp("netip_is4in6", args[0].Term)), pos, "netip.Addr.As4 on an address that is not IPv4 or IPv4-mapped")
+		return as4(f, args, rt, pos)
+	}
+
 	// ---------------- math/bits
 	models["math/bits.Len64"] = func(f *Frame, args []*SVal, rt types.Type, pos token.Pos) *SVal {
 		f.used("math/bits.Len64: result n in [0,64] with x < 2^n and (n > 0 => x >= 2^(n-1))")
